@@ -193,6 +193,28 @@ def run(ctx):
                                   fresh={str(k): sorted(v) for k, v in res3.items()}, **wit)
             except Exception as e:
                 ctx.violation("exception", fn="fit(repeated)", error=repr(e)[:300], **wit)
+        # a tree over a model without any user hook, fitted repeatedly (and on a shorter collection in between): every
+        # linkage must equal that of a fresh object, and the wrapped model must stay usable on its own
+        if rng.random() < 0.3:
+            try:
+                t1 = H.HierarchicalTree(dists_fun=dists_fun, dists_options=dict(mopts), show_progress=False)
+                hist_ = [data, data[:max(2, n - 1)], data] if rng.random() < 0.5 else [data, data]
+                for hi_, d_ in enumerate(hist_):
+                    c1 = t1.fit(d_)
+                    t2 = H.HierarchicalTree(dists_fun=dists_fun, dists_options=dict(mopts), show_progress=False)
+                    c2 = t2.fit(d_)
+                    ctx.count("hookless_tree_refits_checked")
+                    l1_, l2_ = [tuple(map(float, z)) for z in t1.linkage], [tuple(map(float, z)) for z in t2.linkage]
+                    if l1_ != l2_ or c1 != c2:
+                        ctx.violation("history-dependence", reason="fit number %d on a hook-less HierarchicalTree differs from a fresh "
+                                      "object" % (hi_ + 1), linkage=[list(z) for z in l1_], fresh_linkage=[list(z) for z in l2_], **wit)
+                        break
+                    if len(l1_) > len(d_) - 1 or len({int(z[k_]) for z in l1_ for k_ in (0, 1)}) != 2 * len(l1_):
+                        ctx.violation("tree-malformed", reason="a node is a child twice or more than n-1 merges (hook-less tree, fit %d)"
+                                      % (hi_ + 1), linkage=[list(z) for z in l1_], **wit)
+                        break
+            except Exception as e:
+                ctx.violation("exception", fn="HierarchicalTree(hook-less).fit repeated", error=repr(e)[:300], **wit)
         if len(ctx.samples) < 2 and len(events) >= 2:
             ctx.sample(dict(series=ss, max_dist=max_dist, hooks=hook_kind, events=events,
                             clusters={str(k): sorted(v) for k, v in res.items()}))
